@@ -120,6 +120,7 @@ func (c *Ctx) oblige(s *State, kind, label, goal, human string, pos token.Pos) {
 	sb.WriteString("(assert (not " + skGoal + "))\n")
 	o.Script = sb.String()
 	o.Vars = c.modelVars
+	o.Fields = c.entryFieldVars()
 	c.obls = append(c.obls, o)
 	// assume the goal afterwards
 	c.assume(s, goal)
